@@ -160,6 +160,13 @@ def Classifies (off : Int → Int) (ℓ : Int) : Mapped Ltt → Prop
   | .single x => ∀ t, t + off t = ℓ ↔ t = ℓ - x.off
   | .ambiguous x y => ℓ - x.off < ℓ - y.off ∧ ∀ t, t + off t = ℓ ↔ (t = ℓ - x.off ∨ t = ℓ - y.off)
 
+/-- the same demand on the user-visible result, whose candidates are bare offsets
+(`MappedLocalTime<FixedOffset>`) -/
+def ClassifiesOff (off : Int → Int) (ℓ : Int) : Mapped Int → Prop
+  | .none => ∀ t, t + off t ≠ ℓ
+  | .single x => ∀ t, t + off t = ℓ ↔ t = ℓ - x
+  | .ambiguous x y => ℓ - x < ℓ - y ∧ ∀ t, t + off t = ℓ ↔ (t = ℓ - x ∨ t = ℓ - y)
+
 /-- the rule's step function within one year, in terms of the wall-clock start `S` (standard time)
 and end `E` (daylight time) of daylight time in that year -/
 def yearOff (a : Alt) (S E : Int) (t : Int) : Int :=
@@ -186,6 +193,36 @@ def RuleYearly (a : Alt) : Prop :=
     inYear y (endAt a y) ∧ inYear y (endAt a y + a.std.off) ∧ inYear y (endAt a y + a.dst.off) ∧
     ((startAt a y ≤ endAt a y) ↔ (startAt a (y + 1) ≤ endAt a (y + 1))) ∧
     RuleSeparated a (startAt a y + a.std.off) (endAt a y + a.dst.off)
+
+/-! ### `InsideYear` / `RuleYearly` made decidable: one Gregorian cycle suffices
+
+The Gregorian calendar repeats after 400 years = 146097 days = 20871 weeks exactly, so every rule day
+(also the `Mm.w.d` form, which depends on the weekday) falls 146097 days later 400 years later, and the
+year-by-year conditions need to be evaluated for 400 consecutive years only
+(`Proofs.TzL.ruleYearly_of_B`, `insideYear_of_B`). -/
+
+instance (y x : Int) : Decidable (inYear y x) := by unfold inYear; infer_instance
+instance (a : Alt) (S E : Int) : Decidable (RuleSeparated a S E) := by unfold RuleSeparated; infer_instance
+
+/-- the body of `InsideYear` at one year -/
+def InsideYearAt (a : Alt) (y : Int) : Prop :=
+  daysBeforeYear y * 86400 + 86400 < startAt a y ∧ startAt a y < daysBeforeYear (y + 1) * 86400 - 86400 ∧
+  daysBeforeYear y * 86400 + 86400 < endAt a y ∧ endAt a y < daysBeforeYear (y + 1) * 86400 - 86400
+
+/-- the body of `RuleYearly` at one year -/
+def RuleYearlyAt (a : Alt) (y : Int) : Prop :=
+  inYear y (startAt a y) ∧ inYear y (startAt a y + a.std.off) ∧ inYear y (startAt a y + a.dst.off) ∧
+  inYear y (endAt a y) ∧ inYear y (endAt a y + a.std.off) ∧ inYear y (endAt a y + a.dst.off) ∧
+  ((startAt a y ≤ endAt a y) ↔ (startAt a (y + 1) ≤ endAt a (y + 1))) ∧
+  RuleSeparated a (startAt a y + a.std.off) (endAt a y + a.dst.off)
+
+instance (a : Alt) (y : Int) : Decidable (InsideYearAt a y) := by unfold InsideYearAt; infer_instance
+instance (a : Alt) (y : Int) : Decidable (RuleYearlyAt a y) := by unfold RuleYearlyAt; infer_instance
+
+/-- `InsideYear`, evaluated on the years 2000 … 2399 -/
+def insideYearB (a : Alt) : Bool := (List.range 400).all fun k => decide (InsideYearAt a (2000 + (k : Int)))
+/-- `RuleYearly`, evaluated on the years 2000 … 2399 -/
+def ruleYearlyB (a : Alt) : Bool := (List.range 400).all fun k => decide (RuleYearlyAt a (2000 + (k : Int)))
 
 /-- upper end `T + max prevOff newOff` of the wall-clock window of the LAST transition of the table
 (`p` = offset before the head) -/
